@@ -213,6 +213,15 @@ class NativeCtx:
         targets = [m for n, m in list(sys.modules.items()) if m is not None and (n == "dpapi_ng" or n.startswith("dpapi_ng."))]
         for m in targets:
             scan(m, 2)
+        if isinstance(orig, types.FunctionType):
+            # methods / classmethods / staticmethods of repo classes: the replacement is installed as a staticmethod
+            for m in targets:
+                for cls in list(vars(m).values()):
+                    if isinstance(cls, type) and cls.__module__ == m.__name__:
+                        for name, val in list(vars(cls).items()):
+                            if getattr(val, "__func__", val) is orig:
+                                self._patches.append((cls, name, val, True))
+                                setattr(cls, name, staticmethod(repl))
         if getattr(builtins, getattr(orig, "__name__", ""), None) is orig:
             for m in targets:
                 if orig.__name__ not in vars(m):
